@@ -93,6 +93,7 @@ std::string gen_message(Rng& rng) {
                                 "{", "}", "{}", "{0}", "{{x}}", "set {1,2}", "{:d}", "%s", "%d%n", "\\", "\"quoted\"", "a{b", "c}d"};
   std::string m;
   if (rng.chance(0.25)) m.append((size_t)(1 + rng.below(12)), '\b');
+  if (rng.chance(0.04)) m.append((size_t)(20 + rng.below(400)), '\b');      // far more backspaces than the rest of the message has characters
   int nlines = (int)rng.below(5);
   if (rng.chance(0.1)) nlines = 0;
   for (int l = 0; l <= nlines; ++l) {
